@@ -27,6 +27,7 @@ EXPLANATION = (
 EXPLANATION += ' C14.R3 also checks that Delete allocates one member less only behind the key-present edge. C14.R7: the regular expressions of the configured validators, parsed into a normal form over exhaustive byte sets, denote exactly the W3C key / value grammar, and the validator returns true exactly when one of them matches the whole string. The shared rule C09.R7 (no mutable function-local static) is evaluated.'
 EXPLANATION += " C14.R2's gates are decided by pinning: with every call of the validator pinned to false no construction / insertion is reachable, and after a false result every path to the exit passes the reset / default return (named booleans, conjunctions, De Morgan forms and conditional expressions are folded by the path explorer)."
 ROUND2_EXPLANATION = (" C14.R2 also: with the tokenizer's validity flag and both validators pinned to valid, no path leaves an iteration of FromHeader's member loop without AddEntry. C14.R3: captured flags that the copy callback itself modifies are not pinned. C14.R8: Set inserts the new pair before it copies the existing members; Get is true exactly for a valid key the lookup found (4 rows); ToHeader writes the separator exactly when the first-member flag is false and clears the flag (shared with C15).")
+ROUND2_EXPLANATION += (" C14.R8 also: the per-member callback of ToHeader (TraceState and, shared, Baggage) appends text derived from each of its two parameters on every path; the separator rule also reads the idiom 'output still empty' for 'first member'.")
 EXPLANATION += ROUND2_EXPLANATION
 NOT_DECIDED = ('that std::regex implements the parsed normal form; the hand-written validators of the non-regex configuration; '
                'parse/serialise round trip over all strings; Get returning the most recent value over arbitrary histories.')
@@ -801,6 +802,29 @@ def rule_separator_between_members(ck, prog, fn, rule):
     return 1
 
 
+def rule_member_parts_written(ck, prog, fn, rule):
+    """ToHeader: the callback that writes one member appends text derived from each of its parameters (key and value) to the
+    output on every path - a member written with one part missing or doubled does not parse back to the same pair"""
+    from .common import subtree_through_locals
+    f = prog.function(fn)
+    lams = [x for x in prog.funcs.values() if x.d.get('lambda') and x.d.get('parent') == f.key and len(x.params) == 2 and all('string_view' in p_['t'] for p_ in x.params)]
+    if not lams:
+        ck.inconclusive(rule, f, 'member-parts-written', None, 'the per-member callback of ToHeader was not found')
+        return 0
+    lf = lams[0]
+    g = Graph(prog, lf, inline=None, sync_lambdas=False)
+    appends = [p for p in g.points if p.f is lf and p.n is not None and p.n['k'] == 'call' and p.n.get('obj') is not None and
+               strip_targs(p.n.get('c', '')).rsplit('::', 1)[-1] in ('append', 'push_back', 'operator+=', 'insert') and 'string' in (lf.nodes[p.n['obj']].get('t') or '')]
+    for par in lf.params:
+        mine = [p for p in appends if any(lf.nodes[j]['k'] == 'ref' and lf.nodes[j].get('id') == par['id']
+                                           for a in p.n.get('args', []) if a is not None and a >= 0 for j in list(subtree_through_locals(lf, a)) + [a])]
+        ok = bool(mine) and g.exit.id not in g.reachable_from(g.entry, avoid=mine)
+        ck.verdict(ok, rule, lf, 'member-parts-written:%s' % ('first' if par is lf.params[0] else 'second'), (mine or appends or [None])[0].n if (mine or appends) else None,
+                   'text derived from the %s parameter is appended on every path' % par['name'] if ok else
+                   'ToHeader can write a member without its %s (parameter %s of the callback never reaches the output on some path)' % ('key' if par is lf.params[0] else 'value', par['name']))
+    return 1
+
+
 def run(ck, prog):
     ck.doc('C14.R1', 'no member of TraceState modifies the object it is called on', 5)
     ck.doc('C14.R2', 'validity gates dominate construction; invalid => default/empty; at most 32 members when parsing; what is stored is what was validated; a valid member is always stored', 12)
@@ -819,6 +843,7 @@ def run(ck, prog):
     rule_r2_valid_member_is_stored(ck, prog)
     rule_r8_order_and_get(ck, prog)
     rule_separator_between_members(ck, prog, 'trace::TraceState::ToHeader', 'C14.R8')
+    rule_member_parts_written(ck, prog, 'trace::TraceState::ToHeader', 'C14.R8')
     rule_r3(ck, prog)
     rule_r4(ck, prog)
     rule_r5(ck, prog)
